@@ -124,6 +124,10 @@ func (p *Prog) ctypes(v ssa.Value, seen map[ssa.Value]bool, fseen map[*ssa.Funct
 		}
 		ts.union(p.callResultTypes(c, x.Index, seen, fseen, depth))
 	case *ssa.Call:
+		if pt := poolGetTypes(p, x); pt != nil {
+			ts.union(pt)
+			break
+		}
 		ts.union(p.callResultTypes(x, 0, seen, fseen, depth))
 	case *ssa.TypeAssert:
 		if !types.IsInterface(x.AssertedType) {
